@@ -121,6 +121,13 @@ Section Tok.
     destruct (mod_assert (emit w t) m) eqn:Ea; [eexists; split; [eapply mod_assert_neg; eassumption|reflexivity]|].
     destruct (Nat.leb 4 p); [eauto|]. rewrite (consume_none w m mr t Hm Ht). eauto.
   Qed.
+  Lemma register_dup_out w t m key p one up mr : get_mod w m = Some mr -> m_tb_tokens mr = Some 0%N ->
+    exists e, neg e /\ register_dup_fd (emit w t) m key p one up = (emit w t, e).
+  Proof.
+    intros Hm Ht. destruct neg_codes as (NE1 & NE2 & NE3 & NE4 & NE5 & NE6 & NE7). unfold register_dup_fd.
+    destruct (mod_assert (emit w t) m) eqn:Ea; [eexists; split; [eapply mod_assert_neg; eassumption|reflexivity]|].
+    destruct (Nat.leb 4 _); [eauto|]. rewrite (consume_none w m mr t Hm Ht). eauto.
+  Qed.
   Lemma deregister_out w t m k key mr : get_mod w m = Some mr -> m_tb_tokens mr = Some 0%N ->
     exists e, neg e /\ deregister_mod_src (emit w t) m k key = (emit w t, e).
   Proof.
@@ -143,10 +150,14 @@ Section Tok.
       [ refuse Hn; fail
       | unfold retp; match goal with |- context [tell_step sc (emit w ?t) m ?r ?d ?af] =>
                 destruct (tell_step_out w t m r d af mr Hm Ht) as (e & Hne & ->) end; cbn [fst snd]; apply refused_intro; exact Hne
-      | refuse Hn; unfold retp; match goal with |- context [register_mod_src (emit w ?t) m ?k ?key ?p ?o ?a ?i ?u] =>
-                destruct (register_out w t m k key p o a i u mr Hm Ht) as (e & Hne & ->) end; cbn [fst snd]; apply refused_intro; exact Hne
-      | refuse Hn; unfold retp; match goal with |- context [deregister_mod_src (emit w ?t) m ?k ?key] =>
-                destruct (deregister_out w t m k key mr Hm Ht) as (e & Hne & ->) end; cbn [fst snd]; apply refused_intro; exact Hne ].
+      | refuse Hn; unfold retp;
+        first [ match goal with |- context [register_mod_src (emit w ?t) m ?k ?key ?p ?o ?a ?i ?u] =>
+                  destruct (register_out w t m k key p o a i u mr Hm Ht) as (e & Hne & ->) end
+              | match goal with |- context [register_dup_fd (emit w ?t) m ?key ?p ?o ?u] =>
+                  destruct (register_dup_out w t m key p o u mr Hm Ht) as (e & Hne & ->) end
+              | match goal with |- context [deregister_mod_src (emit w ?t) m ?k ?key] =>
+                  destruct (deregister_out w t m k key mr Hm Ht) as (e & Hne & ->) end ];
+        cbn [fst snd]; apply refused_intro; exact Hne ].
   Qed.
 End Tok.
 
